@@ -6,7 +6,10 @@ wt=$(mktemp -d /tmp/mutwt.XXXXXX)
 git -C /repo worktree add -q --detach $wt HEAD || exit 9
 ( cd $wt && git apply "$patch" ) || { echo "patch does not apply"; git -C /repo worktree remove --force $wt; exit 9; }
 cd /verif
+# the run rewrites evidence/<prop>.json with what it saw on the changed tree: keep the real one
+save=$(mktemp /tmp/evsave.XXXXXX); cp /verif/evidence/$prop.json $save 2>/dev/null
 VERIF_REPO=$wt timeout 1500 ${GOSYM:-./bin/gosym} check -p $prop -tier quick "$@" 2>&1 | grep -a -E "VIOLATION|KNOWN-FINDING|INCONCLUSIVE|BROKEN|^property|harness=" | cut -c1-300
 rc=${PIPESTATUS[0]}
+cp $save /verif/evidence/$prop.json 2>/dev/null; rm -f $save
 git -C /repo worktree remove --force $wt
 echo "exit=$rc"
